@@ -20,6 +20,7 @@ from dsim.world import HarnessError, SimHang
 VERIF = os.path.dirname(os.path.dirname(os.path.abspath(__file__)))
 RUN_CPU_CAP_S = 20
 NWORKERS = int(os.environ.get('VERIF_WORKERS', '16'))
+SURVEY = bool(os.environ.get('VERIF_SURVEY'))
 
 DEFAULTS = {
     'quick': {'runs': 4000, 'budget_s': 25.0, 'chunk': 100},
@@ -107,10 +108,10 @@ def execute_guarded(mod, scn, L):
 
 
 def new_agg():
-    return {'evals': 0, 'keys': set(), 'states': set(), 'probes': {},
+    return {'evals': 0, 'scenarios': 0, 'keys': {}, 'states': set(), 'probes': {},
             'faults': {}, 'steps': 0, 'events': 0, 'violations': [],
             'samples': [], 'discarded': {}, 'known_hits': {},
-            'harness': [], 'classes': {}, 'exhaustive': []}
+            'harness': [], 'classes': {}, 'exhaustive': [], 'sigs': {}}
 
 
 def merge_counts(dst, src):
@@ -119,7 +120,8 @@ def merge_counts(dst, src):
 
 
 def absorb(agg, scn, out, findings, keep_samples=2):
-    agg['evals'] += 1
+    agg['evals'] += max(0, int(out.evals))
+    agg['scenarios'] += 1
     cls = scn.get('class', '?')
     agg['classes'][cls] = agg['classes'].get(cls, 0) + 1
 
@@ -128,7 +130,8 @@ def absorb(agg, scn, out, findings, keep_samples=2):
             agg['discarded'].get(out.discarded, 0) + 1
 
     if out.nontrivial and out.case_key is not None:
-        agg['keys'].add(int(out.case_key[:14], 16))
+        k = int(out.case_key[:14], 16)
+        agg['keys'][k] = max(agg['keys'].get(k, 0), int(out.case_weight))
 
     agg['states'] |= out.states
     merge_counts(agg['probes'], out.probes)
@@ -145,16 +148,25 @@ def absorb(agg, scn, out, findings, keep_samples=2):
 
         if f is not None:
             agg['known_hits'][f['id']] = agg['known_hits'].get(f['id'], 0) + 1
-        elif len(agg['violations']) < 20:
-            agg['violations'].append((scn, v))
+        else:
+            sk = '%s / %s' % signature(v)
+            agg['sigs'][sk] = agg['sigs'].get(sk, 0) + 1
+
+            if len(agg['violations']) < 20 and agg['sigs'][sk] <= 2:
+                agg['violations'].append((scn, v))
 
 
 def merge_agg(dst, src):
     dst['evals'] += src['evals']
-    dst['keys'] |= src['keys']
+    dst['scenarios'] += src['scenarios']
+
+    for k, v in src['keys'].items():
+        dst['keys'][k] = max(dst['keys'].get(k, 0), v)
+
     dst['states'] |= src['states']
 
-    for k in ('probes', 'faults', 'discarded', 'known_hits', 'classes'):
+    for k in ('probes', 'faults', 'discarded', 'known_hits', 'classes',
+              'sigs'):
         merge_counts(dst[k], src[k])
 
     dst['steps'] += src['steps']
@@ -393,7 +405,7 @@ def run_check(pid, tier):
                     pending.add(ex.submit(
                         worker_chunk, (pid, tier, master, 0, 0, t)))
                 elif next_idx < cfg['runs'] and time.time() < deadline \
-                        and not agg['violations']:
+                        and (SURVEY or not agg['violations']):
                     n = min(cfg['chunk'], cfg['runs'] - next_idx)
                     pending.add(ex.submit(
                         worker_chunk, (pid, tier, master, next_idx, n, None)))
@@ -434,6 +446,15 @@ def run_check(pid, tier):
 
     search_s = time.time() - t0
 
+    if SURVEY:
+        print('SURVEY (no shrinking, no replay files): %d scenarios' %
+              agg['scenarios'])
+
+        for sk, n in sorted(agg['sigs'].items(), key=lambda kv: -kv[1]):
+            print('  %6d  %s' % (n, sk))
+
+        return 1 if agg['sigs'] else 0
+
     # 3. violations: dedupe by signature, shrink, write replay files
     reported = []
     seen = set()
@@ -448,6 +469,9 @@ def run_check(pid, tier):
 
         if len(reported) >= 3:
             continue
+
+        if hasattr(mod, 'focus'):
+            scn = mod.focus(scn, v)
 
         small, vv, digest, used = shrink_violation(mod, scn, v, L)
         path = write_replay(pid, small, vv, digest,
@@ -467,7 +491,7 @@ def run_check(pid, tier):
 
     print('%s %s: %d runs (%d distinct non-trivial) in %.1fs, %d states, '
           'faults fired %s, known hits %s, discarded %s' % (
-              pid, tier, agg['evals'], len(agg['keys']), wall,
+              pid, tier, agg['evals'], sum(agg['keys'].values()), wall,
               len(agg['states']),
               dict(sorted(agg['faults'].items())),
               dict(sorted(agg['known_hits'].items())),
@@ -492,7 +516,7 @@ def run_check(pid, tier):
 
         return 1
 
-    if agg['evals'] == 0:
+    if agg['scenarios'] == 0:
         print('HARNESS-ERROR property=%s: nothing was explored' % pid)
         return 2
 
@@ -503,16 +527,18 @@ def run_check(pid, tier):
 def build_evidence(mod, pid, tier, master, agg, wall, search_s, nviol,
                    known_lines, stale):
     probes = dict(sorted(agg['probes'].items()))
-    per_hour = int(agg['evals'] / max(search_s, 1e-6) * 3600)
+    per_hour = int(agg['scenarios'] / max(search_s, 1e-6) * 3600)
     cov = {
         'evaluations': agg['evals'],
-        'distinct_nontrivial': len(agg['keys']),
+        'distinct_nontrivial': sum(agg['keys'].values()),
+        'scenarios': agg['scenarios'],
         'rule': mod.RULE,
         'samples': agg['samples'][:2] if agg['samples'] else
         [{'note': 'no non-trivial clean sample kept'}],
         'exhaustive': False,
         'exhaustive_subspaces': sorted(set(agg['exhaustive'])),
         'runs_per_hour': per_hour,
+        'evaluations_per_hour': int(agg['evals'] / max(search_s, 1e-6) * 3600),
         'seed_range': 'sha256("%d:%s:%s:i") for i in [0, %d)' % (
             master, pid, tier, agg['classes'] and
             sum(v for k, v in agg['classes'].items()
